@@ -27,7 +27,11 @@ RULE = ('(a) seeded histories of opens (accepted / rejected by every handler '
         'pair up to a leaf bound, evidence says how many trees were exhausted); '
         '(c) the same pairs on the OS-thread backend with seeded '
         'line-level pre-emption inside close/poll/send/receive/disconnect '
-        '(models async_mode=threading). distinct = distinct (server, mode, cause-set, winning '
+        '(models async_mode=threading); (d) shutdown() with sessions before / '
+        'during / after it and suspending handlers; (e) websocket opens '
+        'accepted by the handler whose driver handshake then fails; half of '
+        'the asyncio histories run behind the real aiohttp adapter (engine '
+        'simH). distinct = distinct (server, mode, cause-set, winning '
         'reason) signatures')
 ASSUMPTIONS = ['handlers take (sid, reason), or - in a seeded share of the '
                'histories - the legacy (sid) form, whose reason is unobservable '
